@@ -148,6 +148,69 @@ func parseMouseEvent(seq ansi.CSI) (Mouse, bool)
                         + (seq.Parameters[0][0] & 8  != 0 ? ModAlt   : 0)
                         + (seq.Parameters[0][0] & 16 != 0 ? ModCtrl  : 0)
 
+-- ------------------------------------------------------------------ SGR semantics (C18, shared by every producer and consumer)
+-- One step of Select Graphic Rendition: the meaning of the parameter list ps[i] (with look-ahead for the legacy
+-- semicolon forms 38;5;n and 38;2;r;g;b) on a rendition s. Sources: ECMA-48 8.3.117 (codes 0-9, 21-29, 30-49),
+-- ITU-T T.416 13.1.8 (colon forms 38:5:n, 38:2:[cs]:r:g:b), xterm ctlseqs (90-97, 100-107, legacy semicolon forms),
+-- kitty/VTE underline extensions (4:x, 58, 59). Channel and index values are reduced modulo 256 (they are bytes).
+pred IdxCol(n int) = (n % 256) + 16777216
+pred RgbCol(r int, g int, b int) = (r % 256) * 65536 + (g % 256) * 256 + (b % 256) + 33554432
+-- extended colour forms at position i: 0 ignored (unrecognised sub-parameter count), 1 stop (malformed), 2 indexed, 3 direct
+pred ExtKind(ps [][]int, i int) =
+     len(ps[i]) == 1 ? (len(ps) - i < 3 ? 1 : (ps[i+1][0] == 5 ? 2 : (ps[i+1][0] == 2 ? (len(ps) - i < 5 ? 1 : 3) : 1)))
+   : (len(ps[i]) == 3 ? (ps[i][1] == 5 ? 2 : 1)
+   : (len(ps[i]) == 5 ? (ps[i][1] == 2 ? 3 : 1)
+   : (len(ps[i]) == 6 ? (ps[i][1] == 2 ? 3 : 1) : 0)))
+pred ExtColor(ps [][]int, i int, keep Color) =
+     ExtKind(ps, i) == 2 ? (len(ps[i]) == 1 ? IdxCol(ps[i+2][0]) : IdxCol(ps[i][2]))
+   : (ExtKind(ps, i) == 3 ? (len(ps[i]) == 1 ? RgbCol(ps[i+2][0], ps[i+3][0], ps[i+4][0])
+                             : (len(ps[i]) == 5 ? RgbCol(ps[i][2], ps[i][3], ps[i][4]) : RgbCol(ps[i][3], ps[i][4], ps[i][5])))
+   : keep)
+pred ExtSkip(ps [][]int, i int) = len(ps[i]) == 1 ? (ExtKind(ps, i) == 2 ? 2 : (ExtKind(ps, i) == 3 ? 4 : 0)) : 0
+pred IsExt(c int) = c == 38 || c == 48 || c == 58
+-- processing stops at a malformed extended colour
+pred SgrStop(ps [][]int, i int) = IsExt(ps[i][0]) && ExtKind(ps, i) == 1
+-- index of the next list to process
+pred SgrNext(ps [][]int, i int) = i + 1 + (IsExt(ps[i][0]) ? ExtSkip(ps, i) : 0)
+pred SgrFg(ps [][]int, i int, s Style) =
+     (let c = ps[i][0] in
+       (c == 0 || c == 39) ? 0
+     : ((30 <= c && c <= 37) ? IdxCol(c - 30)
+     : ((90 <= c && c <= 97) ? IdxCol(c - 90 + 8)
+     : (c == 38 ? ExtColor(ps, i, s.Foreground) : s.Foreground))))
+pred SgrBg(ps [][]int, i int, s Style) =
+     (let c = ps[i][0] in
+       (c == 0 || c == 49) ? 0
+     : ((40 <= c && c <= 47) ? IdxCol(c - 40)
+     : ((100 <= c && c <= 107) ? IdxCol(c - 100 + 8)
+     : (c == 48 ? ExtColor(ps, i, s.Background) : s.Background))))
+pred SgrUl(ps [][]int, i int, s Style) =
+     (let c = ps[i][0] in
+       (c == 0 || c == 59) ? 0 : (c == 58 ? ExtColor(ps, i, s.UnderlineColor) : s.UnderlineColor))
+pred SgrUlStyle(ps [][]int, i int, s Style) =
+     (let c = ps[i][0] in
+       (c == 0 || c == 24) ? 0
+     : (c == 4 ? (len(ps[i]) == 1 ? 1 : ((len(ps[i]) == 2 && 0 <= ps[i][1] && ps[i][1] <= 5) ? ps[i][1] : s.UnderlineStyle))
+     : s.UnderlineStyle))
+pred SgrAttr(ps [][]int, i int, s Style) =
+     (let c = ps[i][0] in let a = s.Attribute in
+       c == 0 ? 0
+     : (c == 1 ? a | AttrBold : (c == 2 ? a | AttrDim : (c == 3 ? a | AttrItalic : (c == 5 ? a | AttrBlink
+     : (c == 7 ? a | AttrReverse : (c == 8 ? a | AttrInvisible : (c == 9 ? a | AttrStrikethrough
+     : (c == 22 ? (a &^ AttrBold) &^ AttrDim : (c == 23 ? a &^ AttrItalic : (c == 25 ? a &^ AttrBlink
+     : (c == 27 ? a &^ AttrReverse : (c == 28 ? a &^ AttrInvisible : (c == 29 ? a &^ AttrStrikethrough : a))))))))))))))
+pred SgrStyle(ps [][]int, i int, s Style) =
+     mk("Style", s.Hyperlink, s.HyperlinkParams, SgrFg(ps, i, s), SgrBg(ps, i, s), SgrUl(ps, i, s), SgrUlStyle(ps, i, s), SgrAttr(ps, i, s))
+
+pred SGRWF(ps [][]int) = forall a in 0..len(ps): (len(ps[a]) >= 1 && (forall b in 0..len(ps[a]): (0 <= ps[a][b] && ps[a][b] <= 2147483647)))
+
+-- parseSGR: each iteration performs exactly one SgrStyle step from position i and continues at SgrNext; it returns early only at SgrStop
+func parseSGR(params [][]int, style *Style)
+  requires wf: SGRWF(params) && style != nil
+  loop 1 invariant wf: SGRWF(params) && len(params) >= 1 && 0 <= i
+  loop 1 assert C18_step: !SgrStop(params, head(i)) && i == SgrNext(params, head(i)) && *style == SgrStyle(params, head(i), head(*style))
+  exit assert C18_stop: i < len(params) ==> SgrStop(params, i)
+
 -- ------------------------------------------------------------------ key matching (C09)
 -- modifier masks are 8-bit sets (Shift Alt Ctrl Super Hyper Meta CapsLock NumLock)
 bits ModifierMask 8
